@@ -80,6 +80,38 @@ def winding_table(ctx, body, R, key, scrut_pred, count_pred):
         return None
     m = ms[0]
     ctx.check(m.otherwise is None and set(m.arms) == {'EvenOdd', 'NonZero'}, R, key + '|winding arms', body.loc(), 'arms EvenOdd and NonZero, no wildcard', 'winding match arms are %s with%s wildcard' % (sorted(m.arms), 'out' if m.otherwise is None else ' a live'))
+    # mask form: the match only selects a bit mask (EvenOdd -> 1, NonZero -> all ones) and the test is written once,
+    # `(count & mask) != 0` — with all ones `count & mask` is `count`
+    masks = {}
+    for v, tgt in m.arms.items():
+        region = arm_region(an.cfg, m.bb, tgt)
+        for bi, k, s in body.statements():
+            if bi in region and s['k'] == 'assign' and not s['p']['pr'] and s['rv']['k'] == 'use' and s['rv']['o'].get('k') == 'const':
+                cv = const_val(an.rvalue_term(bi, k, s['rv']))
+                if isinstance(cv, int):
+                    masks[v] = (s['p']['l'], cv)
+            elif bi in region and s['k'] == 'assign' and not s['p']['pr'] and s['rv']['k'] == 'unop' and s['rv'].get('op') == 'Not' and s['rv']['o'].get('k') == 'const' and str(s['rv']['o'].get('val')) == '0':
+                masks[v] = (s['p']['l'], -1)        # !0: all ones
+    if set(masks) == {'EvenOdd', 'NonZero'} and masks['EvenOdd'][0] == masks['NonZero'][0] and not any(
+            s['k'] == 'assign' and s.get('ty') == 'bool' and s['rv']['k'] == 'binop' and bi in arm_region(an.cfg, m.bb, tgt) for tgt in m.arms.values() for bi, k, s in body.statements()):
+        ml = masks['EvenOdd'][0]
+        okm = masks['EvenOdd'][1] == 1 and masks['NonZero'][1] in (-1, 0xffffffff, 0xffffffffffffffff)
+        tests = []
+        for bi, k, s in body.statements():
+            if s['k'] == 'assign' and s.get('ty') == 'bool' and s['rv']['k'] == 'binop' and bi in an.cfg.reach:
+                t = an.rvalue_term(bi, k, s['rv'])
+                if t[0] == 'bin' and t[1] == 'Ne' and const_val(t[3]) == 0:
+                    a = strip_casts(t[2])
+                    if a[0] == 'bin' and a[1] == 'BitAnd':
+                        x, y = strip_casts(a[2]), strip_casts(a[3])
+                        for c, mk in ((x, y), (y, x)):
+                            if count_pred(c) and mk[0] in ('phi', 'mem') and mk[1] == ml:
+                                tests.append(nosite(t))
+        ctx.check(m.otherwise is None, R, key + '|winding arms', body.loc(), 'arms EvenOdd and NonZero, no wildcard', 'winding match has a live wildcard')
+        ctx.check(okm and len(tests) >= 1, R, key + '|winding arm EvenOdd', body.loc(), 'mask 1: (count & 1) != 0', 'the winding masks are %s / %s with test(s) %d: expected EvenOdd -> 1, NonZero -> all ones and `(count & mask) != 0`' % (masks['EvenOdd'][1], masks['NonZero'][1], len(tests)))
+        ctx.check(okm and len(tests) >= 1, R, key + '|winding arm NonZero', body.loc(), 'mask !0: (count & !0) != 0 is count != 0', 'see EvenOdd')
+        ctx.mask_tests = getattr(ctx, 'mask_tests', set()) | set(tests)
+        return an.cfg.ipdom(m.bb)
     for v, tgt in m.arms.items():
         region = arm_region(an.cfg, m.bb, tgt)
         vals = []
